@@ -42,7 +42,10 @@ Print Assumptions C13_finalizers_survive_startup.
 Theorem C13_structure :
   semlock_registers_then_installs_finalizer = true /\ semlock_cleanup_unlinks_then_unregisters = true
   /\ semlock_copies_do_not_register = true /\ semlock_names_carry_creator_pid = true
-  /\ child_keeps_finalizers_registered_during_startup = true.
+  /\ child_keeps_finalizers_registered_during_startup = true
+  (* nothing that can raise stands unguarded in the tracker's final sweep: its warning (an exception under -W error, which the tracker
+     inherits from the process that started it) and every cleanup call sit in a try that swallows Exception *)
+  /\ tracker_sweep_guards_its_warnings_and_cleanup_calls = true.
 Proof. repeat split; reflexivity. Qed.
 Print Assumptions C13_structure.
 Example C13_example :
